@@ -1,0 +1,234 @@
+//! Verification hook: plain-data dump of the grammar and LR table the
+//! generator is about to emit. Compiled only with `--features verif`.
+use std::cell::RefCell;
+
+use crate::{
+    grammar::{Associativity, Grammar},
+    lang::rustemo_actions::{ConstVal, Recognizer},
+    table::{Action, LRTable},
+};
+
+#[derive(Debug, Clone, PartialEq, Eq)]
+pub enum VRecognizer {
+    None,
+    Str(String),
+    Regex(String),
+}
+
+#[derive(Debug, Clone)]
+pub struct VTerminal {
+    pub name: String,
+    pub recognizer: VRecognizer,
+    pub prio: u32,
+    /// 0 none, 1 left, 2 right
+    pub assoc: u8,
+    pub has_content: bool,
+    pub reachable: bool,
+    pub annotation: Option<String>,
+    /// Remaining (user) meta-data: key and rendered value.
+    pub meta: Vec<(String, String)>,
+}
+
+#[derive(Debug, Clone)]
+pub struct VNonTerminal {
+    pub name: String,
+    pub productions: Vec<usize>,
+    pub annotation: Option<String>,
+    pub reachable: bool,
+}
+
+#[derive(Debug, Clone)]
+pub struct VAssign {
+    pub symbol: usize,
+    pub name: Option<String>,
+    pub is_bool: bool,
+}
+
+#[derive(Debug, Clone)]
+pub struct VProduction {
+    pub nonterminal: usize,
+    pub ntidx: usize,
+    pub rhs: Vec<VAssign>,
+    pub prio: u32,
+    pub assoc: u8,
+    pub nops: bool,
+    pub nopse: bool,
+    pub kind: Option<String>,
+    /// Remaining (user) meta-data: key and rendered value.
+    pub meta: Vec<(String, String)>,
+}
+
+#[derive(Debug, Clone)]
+pub struct VGrammar {
+    pub terminals: Vec<VTerminal>,
+    pub nonterminals: Vec<VNonTerminal>,
+    pub productions: Vec<VProduction>,
+    pub empty_index: usize,
+    pub stop_index: usize,
+    pub augmented_index: usize,
+    pub augmented_layout_index: Option<usize>,
+    pub start_index: usize,
+}
+
+#[derive(Debug, Clone, PartialEq, Eq, PartialOrd, Ord)]
+pub enum VAction {
+    Shift(usize),
+    Reduce(usize, usize),
+    Accept,
+}
+
+#[derive(Debug, Clone)]
+pub struct VItem {
+    pub prod: usize,
+    pub position: usize,
+    pub follow: Vec<usize>,
+}
+
+#[derive(Debug, Clone)]
+pub struct VState {
+    pub symbol: usize,
+    pub items: Vec<VItem>,
+    /// indexed by terminal
+    pub actions: Vec<Vec<VAction>>,
+    /// indexed by nonterminal
+    pub gotos: Vec<Option<usize>>,
+    pub sorted_terminals: Vec<(usize, bool)>,
+}
+
+#[derive(Debug, Clone)]
+pub struct VTable {
+    pub states: Vec<VState>,
+    pub layout_state: Option<usize>,
+    pub production_rn_lengths: Option<Vec<usize>>,
+}
+
+#[derive(Debug, Clone)]
+pub struct Dump {
+    pub grammar: VGrammar,
+    pub table: VTable,
+}
+
+thread_local! {
+    static LAST: RefCell<Option<Dump>> = const { RefCell::new(None) };
+}
+
+/// Takes the dump recorded by the last `process_grammar` call on this thread.
+pub fn take_dump() -> Option<Dump> {
+    LAST.with(|l| l.borrow_mut().take())
+}
+
+fn assoc(a: &Associativity) -> u8 {
+    match a {
+        Associativity::None => 0,
+        Associativity::Left => 1,
+        Associativity::Right => 2,
+    }
+}
+
+fn meta(m: &std::collections::BTreeMap<String, ConstVal>) -> Vec<(String, String)> {
+    m.iter()
+        .map(|(k, v)| {
+            (
+                k.clone(),
+                match v {
+                    ConstVal::Int(v) => v.as_ref().to_string(),
+                    ConstVal::Float(v) => v.as_ref().to_string(),
+                    ConstVal::Bool(v) => v.as_ref().to_string(),
+                    ConstVal::String(v) => v.as_ref().clone(),
+                },
+            )
+        })
+        .collect()
+}
+
+pub(crate) fn observe(grammar: &Grammar, table: &LRTable) {
+    let g = VGrammar {
+        terminals: grammar
+            .terminals
+            .iter()
+            .map(|t| VTerminal {
+                name: t.name.clone(),
+                recognizer: match &t.recognizer {
+                    None => VRecognizer::None,
+                    Some(Recognizer::StrConst(s)) => VRecognizer::Str(s.as_ref().clone()),
+                    Some(Recognizer::RegexTerm(r)) => VRecognizer::Regex(r.as_ref().clone()),
+                },
+                prio: t.prio,
+                assoc: assoc(&t.assoc),
+                has_content: t.has_content,
+                reachable: t.reachable.get(),
+                annotation: t.annotation.clone(),
+                meta: meta(&t.meta),
+            })
+            .collect(),
+        nonterminals: grammar
+            .nonterminals
+            .iter()
+            .map(|n| VNonTerminal {
+                name: n.name.clone(),
+                productions: n.productions.iter().map(|p| p.0).collect(),
+                annotation: n.annotation.clone(),
+                reachable: n.reachable.get(),
+            })
+            .collect(),
+        productions: grammar
+            .productions
+            .iter()
+            .map(|p| VProduction {
+                nonterminal: p.nonterminal.0,
+                ntidx: p.ntidx,
+                rhs: p
+                    .rhs_assign()
+                    .into_iter()
+                    .map(|a| VAssign {
+                        symbol: a.symbol.0,
+                        name: a.name.map(|n| n.as_ref().clone()),
+                        is_bool: a.is_bool,
+                    })
+                    .collect(),
+                prio: p.prio,
+                assoc: assoc(&p.assoc),
+                nops: p.nops,
+                nopse: p.nopse,
+                kind: p.kind.clone(),
+                meta: meta(&p.meta),
+            })
+            .collect(),
+        empty_index: grammar.empty_index.0,
+        stop_index: grammar.stop_index.0,
+        augmented_index: grammar.augmented_index.0,
+        augmented_layout_index: grammar.augmented_layout_index.map(|i| i.0),
+        start_index: grammar.start_index.0,
+    };
+    let t = VTable {
+        states: table
+            .states
+            .iter()
+            .map(|s| VState {
+                symbol: s.symbol.0,
+                items: s.verif_items(),
+                actions: s
+                    .actions
+                    .iter()
+                    .map(|acts| {
+                        acts.iter()
+                            .map(|a| match a {
+                                Action::Shift(s) => VAction::Shift(s.0),
+                                Action::Reduce(p, l) => VAction::Reduce(p.0, *l),
+                                Action::Accept => VAction::Accept,
+                            })
+                            .collect()
+                    })
+                    .collect(),
+                gotos: s.gotos.iter().map(|g| g.map(|s| s.0)).collect(),
+                sorted_terminals: s.sorted_terminals.iter().map(|(t, f)| (t.0, *f)).collect(),
+            })
+            .collect(),
+        layout_state: table.layout_state.map(|s| s.0),
+        production_rn_lengths: table
+            .production_rn_lengths
+            .as_ref()
+            .map(|v| v.iter().copied().collect()),
+    };
+    LAST.with(|l| *l.borrow_mut() = Some(Dump { grammar: g, table: t }));
+}
